@@ -10,3 +10,9 @@ import SPProofs.Properties.C13
 import SPProofs.Text.Lemmas
 import SPProofs.Properties.C27
 import SPProofs.Properties.C28
+import SPProofs.Properties.C14
+import SPProofs.Properties.C09
+import SPProofs.Properties.C20
+import SPProofs.Properties.C21
+import SPProofs.Properties.C22
+import SPProofs.Properties.C01
